@@ -267,17 +267,24 @@ static void op_qderiv(char** tok, int n) {
   double eps = strtod(tok[0], NULL);
   int nv = m->nv;
   armed = 1;
-  if (setjmp(jb)) { armed = 0; printf("error %s\ndone\n", lasterr); return; }
+  static int saved_integ = -1;
+  if (setjmp(jb)) { armed = 0; if (saved_integ >= 0) ((mjModel*)M)->opt.integrator = saved_integ; saved_integ = -1; printf("error %s\ndone\n", lasterr); return; }
+  saved_integ = m->opt.integrator;
   mj_forward(m, d);
   printf("sizes %d %d %d %d\n", nv, (int)m->nu, (int)m->na, (int)m->nD);
   double* buf = (double*)malloc(sizeof(double) * (8 * nv * nv + 8 * nv + 8));
   double *Aact = buf, *Apas = Aact + nv * nv, *A0 = Apas + nv * nv, *A1 = A0 + nv * nv;
   double *Fact = A1 + nv * nv, *Fpas = Fact + nv * nv, *Fbias = Fpas + nv * nv, *mask = Fbias + nv * nv;
   double* fp = mask + nv * nv; double* fm = fp + 3 * nv;
+  // the fluid derivative blocks are symmetrised on purpose when the integrator option is implicitfast (documented
+  // approximation of that integrator): the analytic derivative is evaluated with the option set to implicit
+  int save_integrator = m->opt.integrator;
+  ((mjModel*)m)->opt.integrator = mjINT_IMPLICIT;
   mju_zero(d->qDeriv, m->nD); mjd_actuator_vel(m, d); dense_qderiv(m, d, Aact);
   mju_zero(d->qDeriv, m->nD); mjd_passive_vel(m, d); dense_qderiv(m, d, Apas);
   mjd_smooth_vel(m, d, 0); dense_qderiv(m, d, A0);
   mjd_smooth_vel(m, d, 1); dense_qderiv(m, d, A1);
+  ((mjModel*)m)->opt.integrator = save_integrator;
   for (int i = 0; i < nv * nv; i++) mask[i] = 0;
   for (int r = 0; r < nv; r++) for (int k = 0; k < m->D_rownnz[r]; k++) mask[r * nv + m->D_colind[m->D_rowadr[r] + k]] = 1;
   // central differences of the three smooth force terms w.r.t. qvel (column j = d force / d qvel_j)
@@ -303,7 +310,12 @@ static void op_qderiv(char** tok, int n) {
   { double* fr = (double*)malloc(sizeof(double) * (3 * m->nu + 1));
     for (int i = 0; i < m->nu; i++) { fr[3 * i] = m->actuator_forcelimited[i]; fr[3 * i + 1] = m->actuator_forcerange[2 * i]; fr[3 * i + 2] = m->actuator_forcerange[2 * i + 1]; }
     pmat("forcerange", fr, 3L * m->nu); free(fr); }
+  { double* ci = (double*)malloc(sizeof(double) * (4 * m->nu + 1));
+    for (int i = 0; i < m->nu; i++) { ci[4 * i] = m->actuator_ctrllimited[i]; ci[4 * i + 1] = m->actuator_ctrlrange[2 * i];
+                                      ci[4 * i + 2] = m->actuator_ctrlrange[2 * i + 1]; ci[4 * i + 3] = d->ctrl[i]; }
+    pmat("ctrlinfo", ci, 4L * m->nu); free(ci); }
   free(buf);
+  saved_integ = -1;
   armed = 0;
   printf("done\n");
 }
